@@ -405,6 +405,48 @@ fn binary(r: &Rope<'static>, m: &str, who: &str, obs: &mut Obs) {
       others.push(t);
     }
   }
+  // same length, one character (of the same byte length) changed anywhere:
+  // the difference must be found wherever it falls relative to the piece
+  // borders of both operands
+  for (i, ch) in m.char_indices().take(12) {
+    let rep = match ch.len_utf8() {
+      1 => {
+        if ch == 'b' {
+          'a'
+        } else {
+          'b'
+        }
+      }
+      2 => {
+        if ch == 'ü' {
+          'é'
+        } else {
+          'ü'
+        }
+      }
+      3 => {
+        if ch == '中' {
+          '→'
+        } else {
+          '中'
+        }
+      }
+      _ => {
+        if ch == '😁' {
+          '😀'
+        } else {
+          '😁'
+        }
+      }
+    };
+    let mut t = String::with_capacity(m.len());
+    t.push_str(&m[..i]);
+    t.push(rep);
+    t.push_str(&m[i + ch.len_utf8()..]);
+    if t.len() == m.len() && t != m {
+      others.push(t);
+    }
+  }
   for o in &others {
     for (ci, other) in chunkings(o).iter().enumerate() {
       obs.count("binary_observations", 1);
@@ -418,7 +460,8 @@ fn binary(r: &Rope<'static>, m: &str, who: &str, obs: &mut Obs) {
         obs.fail("eq_rope", format!("{who} ({:?}) == chunking {ci} of {:?}: {} / {}, expected {}", m, o, r == other, other == r, exp_eq));
         return;
       }
-      if (*r == o.as_str()) != exp_eq {
+      // both string impls: PartialEq<&str> and PartialEq<str>
+      if (*r == o.as_str()) != exp_eq || (*r == *o.as_str()) != exp_eq {
         obs.fail("eq_str", format!("{who} ({:?}) == str {:?}: expected {}", m, o, exp_eq));
         return;
       }
